@@ -188,5 +188,6 @@ MANIFEST = {
             "permit + live sessions equal the configured count (every failure branch and every session exit returns its permit); a quiescent non-cancelled pool is full or waiting for the peer with a "
             "permit in hand and a successful attempt then adds a session; after cancellation a quiescent pool has no session and no open connection. The extracted canonical schedule is compared with "
             "the real muxProvider + multiMuxManager + managed sessions over net.Pipe with faults injected at each stage.",
-    "note": "Healing is proved as 'quiescent => full or waiting' plus one-step progress (canonical schedule), not under arbitrary fairness. yamux/net are trusted.",
+    "note": "Healing is proved as 'quiescent => full or waiting' plus C10_heals: under the canonical schedule k+1 successful attempts bring a pool with k free permits back to full strength (not under "
+            "arbitrary fairness). yamux/net are trusted.",
 }
